@@ -13,7 +13,7 @@ EXPLANATION = (
     "fields receive values that derive only from all_paths()/all_components(). R4: oal-cli::run hands with_base the "
     "document deserialised from the configured base locator. This is the complete source-level content of the property "
     "under the assumption that openapiv3's own (de)serialisation is faithful.")
-EXPLANATION += ' (R5) OPTION-PRECEDENCE (shared C13.R7): the base named on the command line is the one read. (R6) BASE-WHOLE - open_file returns the opened file itself.'
+EXPLANATION += ' (R5) OPTION-PRECEDENCE (shared C13.R7): the base named on the command line is the one read. (R6) BASE-WHOLE - open_file returns the opened file itself. R4 also requires that a configured base is never skipped; (R7) BASE-READERS - Builder.base is read by into_openapi only.'
 ASSUMPTIONS = ["serde_yaml/openapiv3 (de)serialisation round-trips the base document (third-party, not analysed)"]
 TECHNIQUE = "static analysis: MIR place/field write census + def-use provenance (frame rule)"
 
